@@ -208,6 +208,13 @@ func SNP(golden *epb.VMGoldenMeasurement, opts *SNPOptions) error {
 		} else {
 			measure, ok = m[opts.ExpectedLaunchVMSAs]
 		}
+		// One launch VMSA is also what a launch without an SVSM measures when the APs are not
+		// created at launch; the endorsement lists that measurement under count 1.
+		if opts.ExpectedLaunchVMSAs == 1 && (!ok || !bytes.Equal(measure, opts.Measurement)) {
+			if single, listed := m[1]; listed {
+				measure, ok = single, true
+			}
+		}
 		if !ok {
 			return fmt.Errorf("no golden measurement for %d launch VMSAs", opts.ExpectedLaunchVMSAs)
 		}
